@@ -1,4 +1,5 @@
 import VModel.Trainer
+import VModel.Quantize
 import VModel.Bincode
 import Driver.ModelParse
 /-! Line-protocol handler for the trainer family (`TR`). -/
@@ -38,6 +39,12 @@ structure Trace where
   bias : Int := 0
   feats : List (Feature × Int) := []
   tags : List TagTraceItem := []
+  /-- optional `q=<weight_max bits>:<multiplier bits>` (raw IEEE-754 patterns recorded by the quantisation hook) -/
+  q : Option (Nat × Nat) := none
+  /-- optional `rb=<raw bias bits>` -/
+  rb : Option Nat := none
+  /-- optional `rf=<feature>=<raw coefficient bits>` items, in trace order -/
+  rf : List (Feature × Nat) := []
 
 def parseTraceItem (t : Trace) (item : String) : Option Trace :=
   match item.splitOn "=" with
@@ -45,6 +52,15 @@ def parseTraceItem (t : Trace) (item : String) : Option Trace :=
   | ["f", d, w] =>
     match d.splitOn ":" with
     | [k, g, rel] => do pure { t with feats := t.feats ++ [(← parseFeat k g rel, ← w.toInt?)] }
+    | _ => none
+  | ["q", v] =>
+    match v.splitOn ":" with
+    | [wm, mult] => do pure { t with q := some (← hex64? wm, ← hex64? mult) }
+    | _ => none
+  | ["rb", h] => do pure { t with rb := some (← hex64? h) }
+  | ["rf", d, h] =>
+    match d.splitOn ":" with
+    | [k, g, rel] => do pure { t with rf := t.rf ++ [(← parseFeat k g rel, ← hex64? h)] }
     | _ => none
   | ["tb", tok, off, cls, w] => do
     pure { t with tags := t.tags ++ [⟨← hexToStr? tok, ← off.toNat?, ← cls.toNat?, none, ← w.toInt?⟩] }
@@ -54,6 +70,30 @@ def parseTraceItem (t : Trace) (item : String) : Option Trace :=
       pure { t with tags := t.tags ++ [⟨← hexToStr? tok, ← off.toNat?, ← cls.toNat?, some (← parseTagFeat k g rel), ← w.toInt?⟩] }
     | _ => none
   | _ => none
+
+/-- the quantisation re-computed in the model from the recorded raw bits (only when a `q=` item is present):
+(a) multiplier = `weight_max / 32767.0`, (b) `b=` is the quantised raw bias, (c) every `rf=` feature's `f=` item carries the
+quantised raw coefficient, (d) `weight_max` is the maximum of the absolute raw values; the first difference is named -/
+def quantCheck (tr : Trace) : String :=
+  match tr.q with
+  | none => ""
+  | some (wmB, multB) =>
+    let wm := F64.ofBits wmB
+    let mult := F64.ofBits multB
+    if quantMultiplier wm ≠ mult then ";Qbad:mult" else
+    match tr.rb with
+    | none => ";Qbad:rb-missing"
+    | some rbB =>
+      let rb := F64.ofBits rbB
+      if quantise rb mult ≠ .ok tr.bias then ";Qbad:b" else
+      let bad := tr.rf.find? fun (p : Feature × Nat) =>
+        match tr.feats.find? (fun e => decide (e.1 = p.1)) with
+        | some e => decide (quantise (F64.ofBits p.2) mult ≠ .ok e.2)
+        | none => true
+      match bad with
+      | some p => s!";Qbad:f={featDescr p.1}"
+      | none =>
+        if weightMax rb (tr.rf.map fun p => F64.ofBits p.2) ≠ wm then ";Qbad:max" else ";Qok"
 
 def listOf {β : Type} (s : String) (sep : String) (f : String → Option β) : Option (List β) :=
   if s = "-" then some [] else (s.splitOn sep).mapM f
@@ -86,14 +126,17 @@ def runTR (cfgS dictS tagdictS corpusS traceS : String) : String :=
       let x := joinWith "/" (examples.map exampleText)
       let tagEx := mapRes (tagExamplesOf cfg) corpus
       let dictEx := mapRes (tokenExamplesOf cfg) tagdict
-      match tagEx, dictEx with
-      | .ok te, .ok de =>
-        match assembleTags te.flatten (defaultTags de.flatten) tr.tags with
-        | .ok tms =>
-          match assembleBoundary cfg tr.feats tr.bias tms with
-          | .ok m => s!"X{x};M{bytesToHex (toVec m)}"
+      let resp : String :=
+        match tagEx, dictEx with
+        | .ok te, .ok de =>
+          match assembleTags te.flatten (defaultTags de.flatten) tr.tags with
+          | .ok tms =>
+            match assembleBoundary cfg tr.feats tr.bias tms with
+            | .ok m => s!"X{x};M{bytesToHex (toVec m)}"
+            | _ => "panic:train"
           | _ => "panic:train"
-        | _ => "panic:train"
-      | _, _ => "panic:add"
+        | _, _ => "panic:add"
+      -- without a `q=` item `quantCheck` is empty: older lines give exactly the old response
+      resp ++ quantCheck tr
 
 end V.Drv
